@@ -67,18 +67,27 @@ pub fn string_expectation(s: &str) -> Exp<Num> {
     }
 }
 
-/// For strict-grammar numerals inside strings: does the crate's parser agree with the reference?
+/// Does the crate's parser agree with the reference reading of this string?
+/// - strict (JSON-grammar) numerals: accepted or rejected exactly as the reference says, same digits and scale;
+/// - other strings with the permissive numeral shape ('_' separators, leading '+', ".5", "5."): the crate may
+///   reject them (its exact grammar is property C05's subject), but if it accepts, the value must be the
+///   reference reading with the separators removed;
+/// - anything else: None (string_expectation already demands an error).
 pub fn string_reference_agrees(s: &str) -> Option<bool> {
-    if !is_json_number(s) {
-        return None;
+    if is_json_number(s) {
+        let want = numeral_expectation(s);
+        let got = string_expectation(s);
+        return Some(match (want, got) {
+            (Exp::Ok(a), Exp::Ok(b)) => a == b,
+            (Exp::Err(_), Exp::Err(_)) => true,
+            _ => false,
+        });
     }
-    let want = numeral_expectation(s);
-    let got = string_expectation(s);
-    Some(match (want, got) {
-        (Exp::Ok(a), Exp::Ok(b)) => a == b,
-        (Exp::Err(_), Exp::Err(_)) => true,
-        _ => false,
-    })
+    let lenient = crate::refdec::parse_numeral_lenient(s)?;
+    match string_expectation(s) {
+        Exp::Ok((i, sc)) => Some(i == lenient.int && sc as i128 == lenient.scale),
+        _ => Some(true),
+    }
 }
 
 pub fn field_expectation(kind: Kind, v: &Value) -> Exp<Option<Num>> {
